@@ -122,7 +122,8 @@ def gen_decl(rng):
     wc = None
     if rng.random() < 0.7:
         wc = (rng.choice(('##any', '##other', '##local', '##targetNamespace', f'{N1} ##local')), rng.choice(('strict', 'lax', 'skip')))
-    return {'attrs': attrs, 'wildcard': wc, 'group': rng.random() < 0.35, 'nested_group': rng.random() < 0.15}
+    return {'attrs': attrs, 'wildcard': wc, 'group': rng.random() < 0.35, 'nested_group': rng.random() < 0.15,
+            'siblings': rng.random() < 0.5}
 
 
 def attr_xml(a):
@@ -159,6 +160,14 @@ def schema_text(decl):
         else:
             groups = f'<xs:attributeGroup name="G1">{body}{wc}</xs:attributeGroup>'
         content = '<xs:attributeGroup ref="t:G1"/>'
+        if decl.get('siblings'):
+            # other users of the same group that combine its wildcard with another one (intersection with an own
+            # wildcard, union with a base type's wildcard): the group's own wildcard must stay what it declares
+            groups += (f'<xs:element name="sib1"><xs:complexType><xs:attributeGroup ref="t:G1"/>'
+                       f'<xs:anyAttribute namespace="##local" processContents="skip"/></xs:complexType></xs:element>'
+                       f'<xs:complexType name="SibBase"><xs:anyAttribute namespace="{N2}" processContents="skip"/></xs:complexType>'
+                       f'<xs:element name="sib2"><xs:complexType><xs:complexContent><xs:extension base="t:SibBase">'
+                       f'<xs:attributeGroup ref="t:G1"/></xs:extension></xs:complexContent></xs:complexType></xs:element>')
     else:
         content = body + wc
     return (f'<xs:schema xmlns:xs="{XS}" targetNamespace="{T}" xmlns:t="{T}" xmlns:i="{N1}" elementFormDefault="qualified">'
